@@ -205,20 +205,67 @@ def lift (S : Chain.State) (s : State) : Chain.State :=
 @[simp] theorem lift_payload (S : Chain.State) (s : State) : (lift S s).payload = S.payload := rfl
 @[simp] theorem lift_slot (S : Chain.State) (s : State) : (lift S s).slot = S.slot := rfl
 
-theorem walkActs_nil (c : Cfg) (ret : List Nat) : walkActs c t [] ret = ret.map Act.wake := by
+theorem walkActs_nil (c : Cfg) (t : Nat) (ret : List Nat) : walkActs c t [] ret = ret.map Act.wake := by
   simp [walkActs]
 
-theorem walkActs_cons_sync (c : Cfg) (y : Nat) (l ret : List Nat) (h : wkOf c y = WK.sync) :
+theorem walkActs_cons_sync (c : Cfg) (t y : Nat) (l ret : List Nat) (h : wkOf c y = WK.sync) :
     walkActs c t (y :: l) ret = Act.store y :: walkActs c t l ret := by
   simp [walkActs, h]
 
-theorem walkActs_cons_cb (c : Cfg) (y : Nat) (l ret : List Nat) (_h1 : wkOf c y ≠ WK.sync) (h : wkOf c y = WK.cb) :
+theorem walkActs_cons_cb (c : Cfg) (t y : Nat) (l ret : List Nat) (_h1 : wkOf c y ≠ WK.sync) (h : wkOf c y = WK.cb) :
     walkActs c t (y :: l) ret = Act.wake y :: walkActs c t l ret := by
   simp [walkActs, h]
 
-theorem walkActs_cons_coro (c : Cfg) (y : Nat) (l ret : List Nat) (h1 : wkOf c y ≠ WK.sync) (h2 : wkOf c y ≠ WK.cb) :
-    walkActs c t (y :: l) ret = walkActs c t l (ret ++ [y]) := by
+theorem walkActs_cons_coro (c : Cfg) (t y : Nat) (l ret : List Nat) (h1 : wkOf c y ≠ WK.sync) (h2 : wkOf c y ≠ WK.cb) :
+    walkActs c t (y :: l) ret = walkActs c t l (collect c t ret y) := by
   simp [walkActs, h1, h2]
+
+/-! ### the collected handles: `collect` keeps them in resumption order -/
+
+theorem collect_perm (c : Cfg) (t : Nat) (ret : List Nat) (y : Nat) : (collect c t ret y).Perm (ret ++ [y]) := by
+  unfold collect
+  split
+  · cases ret with
+    | nil => exact List.Perm.refl _
+    | cons h tl =>
+      show (y :: (tl ++ [h])).Perm (h :: tl ++ [y])
+      have h1 : (y :: (tl ++ [h])).Perm (y :: h :: tl) := List.Perm.cons y (List.perm_append_singleton h tl)
+      exact h1.trans (List.perm_append_singleton y (h :: tl)).symm
+  · exact List.Perm.refl _
+
+theorem foldl_collect_perm (c : Cfg) (t : Nat) : ∀ (l ret : List Nat), (l.foldl (collect c t) ret).Perm (ret ++ l) := by
+  intro l
+  induction l with
+  | nil => intro ret; simp
+  | cons y l ih =>
+    intro ret
+    rw [List.foldl_cons]
+    refine (ih (collect c t ret y)).trans ?_
+    have := (collect_perm c t ret y).append_right l
+    simpa using this
+
+/-- handle by handle, `collect` builds the order in which the suspend point resumes what it holds: `Chain.resumeOrder` of the
+collection order -/
+theorem collect_foldl (c : Cfg) (t : Nat) : ∀ (l r : List Nat),
+    l.foldl (collect c t) (Chain.resumeOrder c t r) = Chain.resumeOrder c t (r ++ l) := by
+  intro l
+  induction l with
+  | nil => intro r; simp
+  | cons y l ih =>
+    intro r
+    rw [List.foldl_cons]
+    have hstep : collect c t (Chain.resumeOrder c t r) y = Chain.resumeOrder c t (r ++ [y]) := by
+      unfold collect Chain.resumeOrder
+      by_cases ha : c.aw t = true
+      · simp only [ha, if_true]
+        rw [Chain.awaitOrder_snoc]
+        rcases List.eq_nil_or_concat r with e | ⟨r', a, e⟩
+        · subst e; rfl
+        · subst e
+          rw [List.concat_eq_append, Chain.awaitOrder_snoc]
+      · simp only [ha, Bool.false_eq_true, if_false]
+    rw [hstep, ih (r ++ [y])]
+    simp
 
 /-- fields no walker step changes -/
 structure SameShared (s r : State) : Prop where
@@ -312,7 +359,7 @@ theorem walk_node (c : Cfg) (t fuel : Nat) (s : State) (y : Nat) (ret : List Nat
           { walk c t fuel (observe (resumeOf (unlink s t y) y) y) (s.next y) ret with
             evs := Ev.obs y (obsOf s.payload (wkOf c y) Seen.ready) :: (walk c t fuel (observe (resumeOf (unlink s t y) y) y) (s.next y) ret).evs }
       else
-        walk c t fuel (unlink s t y) (s.next y) (ret ++ [y]) := by
+        walk c t fuel (unlink s t y) (s.next y) (collect c t ret y) := by
   rw [walk]
 
 theorem unlink_next (s : State) (t y : Nat) : (unlink s t y).next = upd s.next y Seen.null := rfl
@@ -357,7 +404,7 @@ theorem walk_sim (c : Cfg) (t : Nat) (S : Chain.State) : ∀ (l : List Nat) (fue
         by_cases hs : wkOf c y = WK.sync
         · -- blocking waiter: `flag.store(true)`
           simp only [hs, if_true]
-          rw [walkActs_cons_sync c y l' ret hs]
+          rw [walkActs_cons_sync c t y l' ret hs]
           refine ⟨l', ⟨rfl, rfl, ?_, rfl, ⟨rfl, rfl, rfl, rfl, rfl, rfl, rfl⟩⟩, hpop, ⟨[y], rfl⟩, ?_⟩
           · simp [Chain.runActs, pendActs]
           · intro x hx
@@ -367,7 +414,7 @@ theorem walk_sim (c : Cfg) (t : Nat) (S : Chain.State) : ∀ (l : List Nat) (fue
         · simp only [hs, if_false]
           by_cases hcb : wkOf c y = WK.cb
           · simp only [hcb, if_true]
-            rw [walkActs_cons_cb c y l' ret (by rw [hcb]; decide) hcb]
+            rw [walkActs_cons_cb c t y l' ret (by rw [hcb]; decide) hcb]
             by_cases hn : needsLoad s.payload WK.cb = true
             · -- callback whose `value()` performs the `pending()` load
               simp only [hn, if_true]
@@ -413,8 +460,8 @@ theorem walk_sim (c : Cfg) (t : Nat) (S : Chain.State) : ∀ (l : List Nat) (fue
                 rw [upd_other _ _ _ _ hxy]
           · -- coroutine: the handle is collected
             simp only [hcb, if_false]
-            rw [walkActs_cons_coro c y l' ret hs hcb]
-            obtain ⟨m, hm1, hm2, ⟨pre, hm3⟩, hm4⟩ := ih f (unlink s t y) (s.next y) (ret ++ [y]) hpop hf' hp hh
+            rw [walkActs_cons_coro c t y l' ret hs hcb]
+            obtain ⟨m, hm1, hm2, ⟨pre, hm3⟩, hm4⟩ := ih f (unlink s t y) (s.next y) (collect c t ret y) hpop hf' hp hh
             refine ⟨m, ⟨hm1.st, hm1.evs, hm1.rest, hm1.stopped, SameShared.trans (b := unlink s t y) ⟨rfl, rfl, rfl, rfl, rfl, rfl, rfl⟩ hm1.same⟩,
               hm2, ⟨y :: pre, by rw [hm3]; rfl⟩, ?_⟩
             intro x hx
@@ -550,7 +597,7 @@ theorem walk_log (c : Cfg) (t : Nat) : ∀ (l : List Nat) (fuel : Nat) (s : Stat
             · rcases ih f (observe (resumeOf (unlink s t y) y) y) (s.next y) ret hpop hf' (hrest _ (Or.inl rfl) rfl) a ha with h | ⟨h1, h2, h3, h4⟩
               · exact hun a h
               · exact Or.inr ⟨h1, List.mem_cons_of_mem _ h2, h3, h4⟩
-          · rcases ih f (unlink s t y) (s.next y) (ret ++ [y]) hpop hf' (hrest _ (Or.inr rfl) rfl) a ha with h | ⟨h1, h2, h3, h4⟩
+          · rcases ih f (unlink s t y) (s.next y) (collect c t ret y) hpop hf' (hrest _ (Or.inr rfl) rfl) a ha with h | ⟨h1, h2, h3, h4⟩
             · exact hun a h
             · exact Or.inr ⟨h1, List.mem_cons_of_mem _ h2, h3, h4⟩
 
@@ -676,9 +723,10 @@ theorem len_le (c : Cfg) (l : List Nat) (h1 : l.Nodup) (h2 : ∀ x, x ∈ l → 
   have := List.Nodup.length_le_of_subset h1 (l₂ := List.range c.n) (fun x hx => List.mem_range.2 (h2 x hx))
   simpa using this
 
-theorem cntW_walkActs (c : Cfg) (x : Nat) (l ret : List Nat) : Chain.cntW x (walkActs c t l ret) = l.count x + ret.count x := by
+theorem cntW_walkActs (c : Cfg) (t x : Nat) (l ret : List Nat) : Chain.cntW x (walkActs c t l ret) = l.count x + ret.count x := by
   unfold walkActs
-  rw [Chain.cntW_append, List.map_append, Chain.cntW_append, Chain.cntW_map_filter, Chain.cntW_map_filter]
+  rw [Chain.cntW_append, Chain.cntW_wake_perm x (foldl_collect_perm c t _ ret),
+    List.map_append, Chain.cntW_append, Chain.cntW_map_filter, Chain.cntW_map_filter]
   · have hret : Chain.cntW x (ret.map Act.wake) = ret.count x := by
       induction ret with
       | nil => rfl
@@ -808,8 +856,12 @@ theorem abs_finishRun (c : Cfg) (s : State) (t : Nat) (dt : Bool) (evs : List Ev
       rw [(abs_dtorLoad c s t).2]
   · exact ⟨abs_setPc c s t _, rfl⟩
 
-theorem walkActs_build (c : Cfg) (l : List Nat) : walkActs c t l [] = Chain.buildActs c l := by
-  simp [walkActs, Chain.buildActs]
+theorem walkActs_build (c : Cfg) (t : Nat) (l : List Nat) : walkActs c t l [] = Chain.buildActs c t l := by
+  have h := collect_foldl c t (l.filter (fun x => ¬ (wkOf c x = WK.sync ∨ wkOf c x = WK.cb))) []
+  have h0 : Chain.resumeOrder c t [] = [] := by unfold Chain.resumeOrder Chain.awaitOrder; simp
+  rw [h0, List.nil_append] at h
+  unfold walkActs Chain.buildActs
+  rw [h]
 
 section
 variable {c : Cfg} {s : State} (h : PInv c s)
